@@ -39,6 +39,7 @@ def ser_impls(facts):
 
 def run(ctx):
     cover(ctx, ctx.facts())
+    result_layout(ctx, ctx.facts())
     facts = ctx.facts()
     table(ctx, facts)
     decoders(ctx, facts)
@@ -477,3 +478,40 @@ def cover(ctx, facts):
 
 def short_ty(t):
     return re.sub(r"\b(\w+::)+", "", t)[:70]
+
+
+def result_layout(ctx, facts):
+    """Result bytes handed to the report collector: row i occupies bytes [i*Size, (i+1)*Size) of a buffer of len*Size."""
+    ctx.rule("LAYOUT-result: <Vec<T> as query::executor::Result>::to_bytes allocates len(self)*Size bytes, iterates self.iter().enumerate() and serializes row i into bytes i*Size..(i+1)*Size; no truncating adapter")
+    b = facts.bodies.get("<std::vec::Vec<T> as query::executor::Result>::to_bytes")
+    if b is None:
+        ctx.missing("LAYOUT-result", "<Vec<T> as Result>::to_bytes")
+        return
+    ctx.count(bodies=1)
+    usz = ("const", "typenum::Unsigned::USIZE")
+    alloc = [(bb, t) for bb, t in b.calls() if re.search(r"vec::from_elem$|Vec::<T>::with_capacity$", F.callee(t)[0] or "")]
+    oka = False
+    if alloc:
+        n = flow.strip_casts(flow.expr_of(b, alloc[0][1]["args"][-1], max_depth=20))
+        ln = ("call", "std::vec::Vec::<T, A>::len", (("arg", 1),))
+        oka = n[0] == "bin" and n[1] == "Mul" and {str(flow.strip_casts(n[2])), str(flow.strip_casts(n[3]))} == {str(ln), str(usz)}
+    ctx.ob("LAYOUT-result", "buffer-size", oka, "len * Size bytes" if oka else "the result buffer is not len(self) * Size bytes long", site_of(b, alloc[0][0]) if alloc else site_of(b))
+    ix = [(bb, t) for bb, t in b.calls() if re.search(r"IndexMut::index_mut$", F.callee(t)[0] or "")]
+    oks = oki = False
+    if len(ix) == 1:
+        r = flow.expr_of(b, ix[0][1]["args"][1], max_depth=40)
+        if r[0] == "agg" and isinstance(r[1], tuple) and r[1][0] == "std::ops::Range":
+            lo, hi = flow.strip_casts(r[2][0]), flow.strip_casts(r[2][1])
+            iv = [nd for nd in _walk(lo) if nd[0] == "proj" and "Iterator::next" in str(nd)]
+            if iv:
+                i = iv[0]
+                oks = lo in (("bin", "Mul", i, usz), ("bin", "Mul", usz, i)) and hi in (("bin", "Mul", ("bin", "Add", i, ("const", 1)), usz), ("bin", "Mul", usz, ("bin", "Add", i, ("const", 1))))
+                si = str(i)
+                oki = "Iterator::enumerate" in si and "::iter'" in si and "('arg', 1)" in si and i[-1] == 0
+    ctx.ob("LAYOUT-result", "row-stride", oks, "row i -> bytes i*Size..(i+1)*Size" if oks else "rows are not written at offsets i*Size..(i+1)*Size (overlap or gaps in the result the collector parses)", site_of(b, ix[0][0]) if ix else site_of(b))
+    ctx.ob("LAYOUT-result", "all-rows-in-order", oki, "index = position in self.iter().enumerate()" if oki else "the row index does not come from enumerating all rows of self in order", site_of(b, ix[0][0]) if ix else site_of(b))
+    tr = [F.callee(t)[0] for bb, t in b.calls() if TRUNC.search(F.callee(t)[0] or "")]
+    ctx.ob("LAYOUT-result", "no-truncation", not tr, "no take/skip/rev/filter on the rows" if not tr else f"`{tr[0].split('::')[-1]}` drops or reorders result rows", site_of(b))
+    ser = [(bb, t) for bb, t in b.calls() if (F.callee(t)[0] or "").endswith("Serializable::serialize")]
+    okr = len(ser) == 1 and str(flow.expr_of(b, ser[0][1]["args"][0], max_depth=30)).endswith("'as:Some', '0', 1)")
+    ctx.ob("LAYOUT-result", "serializes-the-row", okr, "row.serialize(slot i)" if okr else "the value serialized into slot i is not row i", site_of(b, ser[0][0]) if ser else site_of(b))
